@@ -132,7 +132,7 @@ FLOW_ASSUME = ["reference encoders/interpretation written from RFC 7011/7012 and
 
 
 AGING_RULE = (" cache.aging (the cache and decoder read the clock through the time seam): announce, let T pass, use - T in {0, 1, 59..61, 299..301, 599..601, 1799..1801, 3599..3601, 7200, a day -1/0/+1 s, a week, 30 days, 400 days} "
-              "x 5 orders (data / re-announcement then data / dump, T, load, data / peer lookup / T, dump, load, data) x 6 template versions x IPFIX, NetFlow v9: what is looked up is what was announced, however old.")
+              "x 6 orders (data / re-announcement then data / dump, T, load, data / peer lookup / T, dump, load, data / T, 96 other exporters announce, data) x 6 template versions x IPFIX, NetFlow v9: what is looked up is what was announced, however old.")
 
 
 def aging_space(race=False):
@@ -233,8 +233,11 @@ def crash_check(pid, tier, alloc):
         shutil.rmtree(d, ignore_errors=True)
         assume += PIPE_ASSUME
     if alloc:
+        for sp in ("ipfix.scaling", "v9.scaling"):
+            res.append(run_space(b, sp, tier, hang_s=120))
         assume += ["allocation = runtime.MemStats.TotalAlloc delta around one decode+encode in a single-goroutine worker (exact: ReadMemStats flushes allocation caches); bound 64 KiB + 1024 B per received octet (largest legitimate case measured: 203 B/octet, 78 KB); a watchdog aborts a decode that exceeds 64x the bound",
-                   "records <= octets is checked on every case"]
+                   "records <= octets is checked on every case",
+                   "scaling spaces: cost of one datagram = CPU time of the decoding thread (getrusage RUSAGE_THREAD, best of three rounds of a calibrated number of repetitions - at least 40 ms for the empty cache), compared between an empty template cache and one holding 50000 / 200000 templates of other exporters; more than 40x + 100 ms is a violation (the only time-based oracle; thread CPU time, not wall-clock time, and a ratio of two measurements taken back to back)"]
     rule = CRASH_RULE
     if not alloc:
         rule += " The sFlow and NetFlow v5 grammar spaces (thorough: also the IPFIX / v9 ones) are repeated on a GOARCH=386 build (int is 32 bits wide there)."
